@@ -4,7 +4,9 @@ The history generator below is shared with C11 (tools/props/c11.py imports it). 
   {"U": unbonding ns, "nvals": 4, "maxprov": 2, "epoch": E, "ops": [action...]}
 with the actions interpreted by harness/c10/driver_test.go:
   [1, owner, chain, rev, ini]  [2, c, sender, newchain, newowner, ini]  [3, c, sender]  [4, c, v, withkey]
-  [5, c, tag]  [6, c]  [7, dt, failclient]  [8]  [9, c]  [10, c]  [11, kind, ...]
+  [5, c, tag]  [6, c]  [7, dt, fault]  [8]  [9, c]  [10, c]  [11, kind, ...]
+(fault: 0 none, 1 every CreateClient call of the block fails, 2+k the (k+1)-th call fails; a negative tag marks an
+action that is executed but not observed)
 (ini = [] | [spawn, hrev, conn]; times are ns relative to T0 - 1000 ns, 0 = zero time).
 """
 import json
@@ -182,7 +184,7 @@ class Gen:
         self.ops.append([7, dt, failclient])
         due = [c for c in self.cons if c["phase"] == 2 and c["spawn"] <= self.now]
         for c in due[:200]:
-            if (c["optin"] & {2, 3}) and not c["conn"] and not failclient:
+            if (c["optin"] & {2, 3}) and not c["conn"] and failclient != 1:
                 c["phase"], c["client"] = 3, True
             else:
                 c["phase"], c["spawn"] = 1, 0
@@ -242,7 +244,7 @@ def random_history(rng, n_ops, weights, U=None):
             c = g.existing(lambda c: c["client"] and not c["chan"])
             g.channel(c if c is not None and rng.random() < 0.8 else None)
         elif a == "begin":
-            g.begin(failclient=1 if rng.random() < 0.07 else 0)
+            g.begin(failclient=rng.choice([1, 2, 2, 3]) if rng.random() < 0.09 else 0)
         elif a == "end":
             g.end()
         elif a == "pfail":
@@ -303,7 +305,7 @@ def big_history(rng):
     for _ in range(rng.randint(0, 5)):
         c = rng.randrange(n)
         g.update(c, nc=[], no=[], ini=[t0 - rng.randint(0, 3), 1, 0], sender=g.cons[c]["owner"])
-    g.begin(dt=rng.choice([4, 5, 6]))
+    g.begin(dt=rng.choice([4, 5, 6]), failclient=rng.choice([0, 0, 2 + rng.randint(0, 150)]))
     g.end()
     g.begin(dt=rng.choice([0, 1]))
     g.begin(dt=1)
@@ -322,6 +324,14 @@ def gen(rng, tier):
 
 
 # ------------------------------------------------------------------ evidence helpers
+
+def project(case, obs):
+    """The implementation's observation of a consumer carries a 14th element (IBC channel object closed) that the
+    model does not track (monitor clause 13 checks it); it is dropped before model and implementation are compared."""
+    if not isinstance(obs, list) or len(obs) != 2:
+        return obs
+    return [[[st[0], st[1], [c[:13] for c in st[2]], st[3], st[4]] for st in obs[0]], obs[1]]
+
 
 def edges_of(obs):
     prev, out = {}, set()
@@ -361,6 +371,7 @@ CLAUSES = {
     10: "BeginBlock returned an error instead of falling back to registered (chain halt)",
     11: "removal schedule: wrong consumers processed (first min(200, due)) or a due stopped consumer was not deleted",
     12: "raw store keys of a consumer do not match its records",
+    13: "a consumer with an established channel was deleted but the channel was not closed",
 }
 
 
@@ -373,4 +384,4 @@ def histogram(part, c):
     return ["consumers<=10" if n <= 10 else "consumers<=200" if n <= 200 else "consumers>200", "ops<=20" if len(c["ops"]) <= 20 else "ops>20"]
 
 
-PARTS = [Part("lifecycle", "c10", "lifecycle", gen, nontrivial=nontrivial, describe=describe)]
+PARTS = [Part("lifecycle", "c10", "lifecycle", gen, project=project, nontrivial=nontrivial, describe=describe)]
